@@ -4,18 +4,12 @@
    one-step consequences. *)
 From Coq Require Import List ZArith Bool Reals Lra Lia.
 From Flocq Require Import Core.Raux.
-From Inferno Require Import Base.Num Base.NumR Gen.NeuronDynamics Gen.NeuronAdaptation C03.Neuron C03.NeuronSpec.
+From Inferno Require Import Base.Num Base.NumR Gen.NeuronDynamics Gen.NeuronAdaptation C03.Neuron C03.NeuronSpec C03.NumFacts.
 Import ListNotations.
 Open Scope R_scope.
 Local Notation exp := Rtrigo_def.exp.
 
 (* ------------------------------------------------------------------ Part A *)
-Lemma tmax_RN a b : tmax RN a b = Rmax a b.
-Proof.
-  rn_unfold. destruct (Rltb'_spec a b).
-  - rewrite Rmax_right; lra.
-  - rewrite Rmax_left; lra.
-Qed.
 
 
 Theorem thresholding_constant_spec :
